@@ -44,6 +44,16 @@ Definition dispatch (req : sx) : sx :=
   else if op =? "block" then sx_dec SB (block_decode (len_dec (gI a1) (gbool a2)) (gB a3))
   else if op =? "initlen" then
     sx_dec (fun '(v, is64) => SL [SI v; sx_bool is64]) (initial_length_decode (gbool a1) (gB a2))
+  else if op =? "repeat" then
+    (* kind stop data: RepeatUntilExcluding(lambda obj, ctx: obj == stop, <element>) with element =
+       ULEB128 (kind 0), ULInt<8n> (kind n > 0) or UBInt<8n> (kind -n); fuel = |data| + 1 elements *)
+    let k := gI a1 in let data := gB a3 in
+    let d : dec Z := if (k =? 0)%Z then uleb_decode
+                     else if (0 <? k)%Z then uint_decode true (Z.to_nat k) else uint_decode false (Z.to_nat (- k)) in
+    match repeat_until (S (length data)) d (fun x => (x =? gI a2)%Z) data with
+    | Some (xs, t) => SL [SS "some"; SL (map SI xs); sx_nat (length t)]
+    | None => sx_none
+    end
   else if op =? "enc_field" then
     (* fam le a b name v: the standard's encoding of v in that field *)
     match field_kind (gS a1) (gbool a2) (gI a3) (gI (nthx 4 l)) (gS (nthx 5 l)) with
